@@ -39,6 +39,31 @@ class Transition:
         return self._ref
 
 
+def _impl_exception(exc):
+    """If the exception was raised by code under REPO (the implementation), describe it; else None."""
+    tb = exc.__traceback__
+    last = None
+    while tb is not None:
+        last = tb
+        tb = tb.tb_next
+    if last is None:
+        return None
+    fn = last.tb_frame.f_code.co_filename
+    if os.path.realpath(fn).startswith(os.path.realpath(common.REPO) + os.sep):
+        return f"{type(exc).__name__}|in={os.path.basename(fn)}:{last.tb_frame.f_code.co_name}"
+    return None
+
+
+def _crash_violation(check, exc, where, history):
+    """An exception escaping from tinyflux while the machinery was only observing is a finding, not a tooling error."""
+    what = _impl_exception(exc)
+    if what is None:
+        return None
+    return {"oracle": "no-unexpected-exception", "signature": f"{check.prop}|unexpected-exception-while-{where}|{what}",
+            "observed": f"{type(exc).__name__}: {exc}"[:300], "expected": "no exception", "detail": traceback.format_exc()[-1500:],
+            "probe": None, "kind": "state" if where == "observing" else "transition"}
+
+
 def _init_worker(check, cfgs, alpha_args):
     common.scratch_root()
     _CTX["check"] = check
@@ -53,8 +78,14 @@ def _expand(task):
         return _expand_inner(ci, history, pre)
     except common.ToolingError:
         raise
-    except Exception:
-        raise common.ToolingError("expand failed for history %r:\n%s" % (history, traceback.format_exc()))
+    except Exception as e:
+        v = _crash_violation(_CTX["check"], e, "expanding", history)
+        if v is None:
+            raise common.ToolingError("expand failed for history %r:\n%s" % (history, traceback.format_exc()))
+        import collections as _c
+
+        v["kind"] = "state"  # replayed by re-observing / re-expanding the state itself
+        return [(("noop-marker",), ("exc",), None, None, [v])], _c.Counter()
 
 
 def _expand_inner(ci, history, pre):
@@ -102,8 +133,11 @@ def _observe(task):
         return viols, counters
     except common.ToolingError:
         raise
-    except Exception:
-        raise common.ToolingError("observe failed for history %r:\n%s" % (history, traceback.format_exc()))
+    except Exception as e:
+        v = _crash_violation(check, e, "observing", history)
+        if v is None:
+            raise common.ToolingError("observe failed for history %r:\n%s" % (history, traceback.format_exc()))
+        return [v], collections.Counter()
 
 
 class Result:
@@ -165,6 +199,9 @@ def _bfs(pool, check, ci, cfg, bounds, res, t_start, budget_s, workers, log):
         for (h, pre), (succs, counters) in zip(frontier, pool.imap(_expand, tasks, _chunks(len(tasks), workers))):
             res.counters.update(counters)
             for op, outcome, key, post, viols in succs:
+                if op == ("noop-marker",):
+                    _record(res, check, cfg, h, viols)
+                    continue
                 transitions += 1
                 h2 = h + (op,)
                 _record(res, check, cfg, h2, viols)
